@@ -181,7 +181,7 @@ theorem word_pair_independent (size L : Nat) (hs : 0 < size) (j j' : Nat) (hj : 
 /-- A three-word list, four positions, a hyphen as separator: the hypotheses are met, and
 the statements give 1/3 per word and 1/9 per pair. -/
 example :
-    let r : WLRecipe := { list := none, length := 4, sep := .char [45], capitalize := "none" }
+    let r : WLRecipe := { list := none, length := 4, sepChar := [45], capitalize := "none" }
     E (choices { tbl := [], maxTrials := 200, frNum := 1, frDen := 1000000000 } r 3 4 0 4)
         (fun ch => if (ch[2]?).map Prod.fst = some 1 then 1 else 0) = 1 / 3 := by
   intro r
